@@ -3,14 +3,21 @@ import DL.Lemmas.CFSound4b
 /-! Soundness invariant: `do-while`, `for`, `for-in/of`. -/
 namespace DL.CF
 
-theorem doWhile_n (ls : List Id) (p : Nat) (body : Stmt) (test : Kids) (tt : Bool) :
+theorem testCompl_pure (tt : Bool) (test : Kids) (hp : test.pure = true) :
+    testCompl tt test = if tt then { n := true } else pureCompl test := by
+  unfold testCompl testComplOf; rw [Kids.compl_pure test hp]
+
+theorem doWhile_n (ls : List Id) (p : Nat) (body : Stmt) (test : Kids) (tt : Bool) (hp : test.pure = true) :
     (Stmt.compl ls (.doWhileS p body test tt)).n = ((goesRound ls (body.compl []) && !tt) || (body.compl []).b) ∧
     (Stmt.compl ls (.doWhileS p body test tt)).b = false ∧ (Stmt.compl ls (.doWhileS p body test tt)).c = false ∧
     ((Stmt.compl ls (.doWhileS p body test tt)).hasCl = true → (body.compl []).hasCl = true) := by
-  refine ⟨by simp [Stmt.compl], by simp [Stmt.compl], by simp [Stmt.compl], ?_⟩
+  have htc : (testCompl tt test).n = true ∧ (testCompl tt test).b = false ∧ (testCompl tt test).c = false ∧
+      (testCompl tt test).hasCl = false := by
+    rw [testCompl_pure tt test hp]; cases tt <;> simp [Compl.hasCl, pureCompl]
+  refine ⟨by simp [Stmt.compl, htc], by simp [Stmt.compl, htc], by simp [Stmt.compl, htc], ?_⟩
   intro h
-  simp only [Stmt.compl] at h
-  simpa using loopCompl_hasCl _ _ _ h
+  simp only [Stmt.compl, testComplOf_eq, union_hasCl, abrupt_hasCl, guard_hasCl, htc, Bool.and_false, Bool.or_false] at h
+  exact loopCompl_hasCl _ _ _ h
 
 theorem doWhileTail_ok (live tt : Bool) (ls : List Id) (body : Stmt) (x b' : A) (hb : PostS live [] body x b') :
     TailOK live ((goesRound ls (body.compl []) && !tt) || (body.compl []).b) body.pos [] b'
@@ -51,16 +58,18 @@ theorem doWhileTail_ok (live tt : Bool) (ls : List Id) (body : Stmt) (x b' : A) 
     · simp only [h2, Bool.false_eq_true, if_false]
       exact ⟨fun q hq _ => markAsEnd_info_other _ _ _ _ hq, fun q => by simp, by simp, by simp, by simp, ⟨_, rfl⟩, by simp, by simp⟩
 
-theorem doWhile_t (ls : List Id) (p : Nat) (body : Stmt) (test : Kids) (tt : Bool)
+theorem doWhile_t (ls : List Id) (p : Nat) (body : Stmt) (test : Kids) (tt : Bool) (hp : test.pure = true)
     (h : (Stmt.compl ls (.doWhileS p body test tt)).t = true) :
     (body.compl []).t = true ∨ (goesRound ls (body.compl []) && !tt && test.mayThrow) = true := by
-  simp only [Stmt.compl, loopCompl_t, union_t, guard_t, abrupt_t, testCompl_t] at h
+  simp only [Stmt.compl, testComplOf_eq, loopCompl_t, union_t, guard_t, abrupt_t, testCompl_t] at h
+  rw [Kids.compl_pure test hp, pureCompl_t] at h
   revert h; cases tt <;> cases test.mayThrow <;> cases (body.compl []).t <;> cases goesRound ls (body.compl []) <;> simp
 
 theorem doWhileAfter_mayThrow (p bp : Nat) (a : A) : (doWhileAfter p bp a).sc.mayThrow = a.sc.mayThrow := by
   unfold doWhileAfter; split <;> simp
 
 theorem doWhile_ok (live : Bool) (ls : List Id) (p : Nat) (body : Stmt) (test : Kids) (tt : Bool) (a : A)
+    (hp : test.pure = true)
     (hpre : Pre live (p :: (test.positions ++ body.positions)) a)
     (ihk : ∀ x, PreK test.positions x → PostK test.upos test.positions test.inner test.mayThrow x (visitKids test x))
     (ih : ∀ a0, Pre live body.positions a0 → PostS live [] body a0 (visitStmt body a0)) :
@@ -72,7 +81,7 @@ theorem doWhile_ok (live : Bool) (ls : List Id) (p : Nat) (body : Stmt) (test : 
         (withChild .loop body.pos (fun x => doWhileTail tt body.isDeclOrExpr body.pos (visitStmt body x)) (flagA a p .other))) := by
     simp [visitStmt, flagA]
   rw [hv]
-  obtain ⟨hn, hb0, hc0, hl0⟩ := doWhile_n ls p body test tt
+  obtain ⟨hn, hb0, hc0, hl0⟩ := doWhile_n ls p body test tt hp
   have hc := loopCore live _ p body.pos body [] (doWhileTail tt body.isDeclOrExpr body.pos) (flagA a p .other) rfl
     hpre.hs (fun q hq => by rw [flagA_endAt]; exact hpre.fresh q (List.mem_cons_of_mem _ (List.mem_append.mpr (Or.inr hq))))
     hsp.pb hsp.ndb ih (fun b' hb => doWhileTail_ok live tt ls body _ b' hb)
@@ -126,10 +135,10 @@ theorem doWhile_ok (live : Bool) (ls : List Id) (p : Nat) (body : Stmt) (test : 
     · rw [ur_eq_of_info_eq (hk.frame q hsp.pk), hur2, hc.urp] at hu
       have := own_pos_dead hpre q .other _ rfl hu
       simp [this]
-    · simp [(htu q hqt).1, body.reach_false q (htu q hqt).2]
+    · simp [(htu q hqt).1, body.reach_false q (htu q hqt).2, Kids.flowReach_pure test q hp]
     · rw [ur_eq_of_info_eq (hk.frame q (hbu q hqb).2), hur2] at hu
       have := hc.p3 q hqb hu
-      revert this; cases live <;> simp [(hbu q hqb).1]
+      revert this; cases live <;> simp [(hbu q hqb).1, Kids.flowReach_pure test q hp]
   · intro q hq hu
     simp only [Stmt.upos, List.mem_cons, List.mem_append] at hq
     simp only [Stmt.inner]
@@ -145,7 +154,7 @@ theorem doWhile_ok (live : Bool) (ls : List Id) (p : Nat) (body : Stmt) (test : 
   · intro hh; apply hk.mt; rw [hmt2]; exact hc.mt hh
   · intro hh
     simp only [Bool.and_eq_true] at hh
-    rcases doWhile_t ls p body test tt hh.2 with ht | ht
+    rcases doWhile_t ls p body test tt hp hh.2 with ht | ht
     · apply hk.mt; rw [hmt2]; exact hc.tBody (by simp [hh.1, ht])
     · simp only [Bool.and_eq_true, Bool.not_eq_true'] at ht
       refine hk.pT (not_stops_of hstop2 ?_) ht.2
